@@ -388,8 +388,9 @@ def add_tag_newline_handling(
 
             # Ensure exactly one blank line between tag and block content
             if (prev_is_tag and curr_is_block) or (prev_is_block and curr_is_tag):
-                # Add blank line separator
-                result_parts.append("")  # Empty string creates blank line when joined
+                # Add blank line separator. Inside a quote it carries the quote prefix, or it
+                # would end the quote and split it in two.
+                result_parts.append(subsequent_indent.rstrip())
                 result_parts.append(wrapped)
             else:
                 result_parts.append(wrapped)
